@@ -70,6 +70,12 @@ func (c *c04Case) Exec() {
 	defer os.RemoveAll(dir)
 	path := filepath.Join(dir, "f.rio")
 	opts := []recordio.FileWriterOption{recordio.Path(path), recordio.CompressionType(c.Comp), recordio.BufferSizeBytes(c.WBuf)}
+	if len(c.Prog)%5 == 1 {
+		// the writer is handed an open file instead of a path
+		f, err := os.Create(path)
+		must(err)
+		opts[0] = recordio.File(f)
+	}
 	if c.Direct {
 		opts = append(opts, recordio.DirectIO())
 	}
